@@ -127,6 +127,8 @@ def directed(prop, cfg, notes, n=6000, cap=60):
     tr = engine.PROPS[prop]['traits']
     its = bgen.items(rng, n, zero=zero, focus=(tr or None))
     its = [it for it in its if bharness.compatible_cfg(it, cfg)]
+    if prop in ('C06', 'C17'):
+        its += bgen.negatives(rng, 400)
     hook, log = runner.run_hook(cfg, ['2 ' + it.rust() for it in its], tag='-%s-directed' % prop)
     if hook is None:
         notes.append('directed search: hook run failed')
@@ -134,7 +136,7 @@ def directed(prop, cfg, notes, n=6000, cap=60):
     model = runner.run_model('expand', cfg, [it.sexp() for it in its])
     out = []
     for it, h, m in zip(its, hook, model):
-        if engine.compare(prop, it, h, m) is not None:
+        if engine.compare(prop, it, h, m) is not None and (h.startswith('ok') or not getattr(it, 'expect_error', None)):
             out.append(it)
     notes.append('directed search: %d of %d compile-ready random items expand differently in %s' % (len(out), len(its), cfg))
     out.sort(key=lambda it: len(it.rust()))
